@@ -53,11 +53,12 @@ structure Env where
 
 /-- File post-processors (`FilePostProcessor`): `SetFileMode(m)` is `generated.chmod(m)`;
 `ExternalProgramEditInPlace` runs a program on the file (`check=True`): `none` = non-zero exit status
-(`CalledProcessError`), `some c` = the file content afterwards.  The program is assumed to depend on the
-content only and to leave the mode alone. -/
+(`CalledProcessError`), `some (c, none)` = the file content afterwards, edited in place (mode kept),
+`some (c, some m)` = the program also left the mode `m` behind (it replaced the file by temp file + rename — a new
+inode with the temp file's mode — or ran `chmod`).  The program is assumed to depend on the content only. -/
 inductive FilePP
   | setMode (m : Nat)
-  | edit (f : Content → Option Content)
+  | edit (f : Content → Option (Content × Option Nat))
 
 inductive Err
   | conflict (p : Path)        -- PermissionError("… exists and allow_overwrite is False.")
@@ -72,7 +73,8 @@ inductive Op
   | mkdirs (p : Path)              -- p.parent.mkdir(parents=True, exist_ok=True)
   | openW (p : Path)               -- open(p, O_WRONLY|O_CREAT|O_TRUNC, 0666) = fd
   | denied (p : Path)              -- the same open failing with EACCES
-  | exec (p : Path) (i : Nat)      -- external program (post-processor i) run on p
+  | exec (p : Path) (i : Nat) (m : Option Mode)
+                                   -- external program (post-processor i) run on p; `some m`: it left mode m
 deriving DecidableEq, Repr
 
 def Op.path : Op → Path
@@ -80,7 +82,7 @@ def Op.path : Op → Path
   | .mkdirs p => p
   | .openW p => p
   | .denied p => p
-  | .exec p _ => p
+  | .exec p _ _ => p
 
 /-- One output file of a run.  `content` is what the template renders to after the line post-processors
 (a function of the run's inputs and flags: reproducibility is C07/C10, a hypothesis here).
@@ -131,6 +133,12 @@ structure PPOut where
   ops  : List Op
   err  : Option Err
 
+/-- The mode after an external program: kept, or whatever the program left. -/
+def editMode (nm : Option Nat) (old : Mode) : Mode :=
+  match nm with
+  | none => old
+  | some m => permBits m
+
 /-- `for file_pp in file_pps: output_path = file_pp(output_path)`; `i` numbers the processors. -/
 def applyPPs (p : Path) : List FilePP → Nat → File → PPOut
   | [], _, f => ⟨f, [], none⟩
@@ -139,10 +147,10 @@ def applyPPs (p : Path) : List FilePP → Nat → File → PPOut
     ⟨r.file, .chmod p (permBits m) :: r.ops, r.err⟩
   | .edit g :: rest, i, f =>
     match g f.content with
-    | none => ⟨f, [.exec p i], some (.pp p i)⟩
-    | some c =>
-      let r := applyPPs p rest (i + 1) { f with content := c }
-      ⟨r.file, .exec p i :: r.ops, r.err⟩
+    | none => ⟨f, [.exec p i none], some (.pp p i)⟩
+    | some (c, nm) =>
+      let r := applyPPs p rest (i + 1) ⟨c, editMode nm f.mode⟩
+      ⟨r.file, .exec p i (nm.map permBits) :: r.ops, r.err⟩
 
 /-- Mode of the file once its content is written: `shutil.copy` copies the resource's mode, a plain
 `open`/`write` keeps the mode the opened file has. -/
@@ -207,17 +215,19 @@ def hasSetMode : List FilePP → Bool
   | .setMode _ :: _ => true
   | .edit _ :: rest => hasSetMode rest
 
-/-- The mode the last `SetFileMode` asks for. -/
-def lastSetMode : List FilePP → Option Nat
-  | [] => none
-  | .setMode m :: rest => (lastSetMode rest).or (some m)
-  | .edit _ :: rest => lastSetMode rest
+/-- The requested file mode: the argument of `SetFileMode` when it is the *last* post-processor — where the CLI
+puts it (`post_processors.append(SetFileMode(self._args.file_mode))` after everything else), so that no
+external program can undo it. -/
+def requestedMode (pps : List FilePP) : Option Nat :=
+  match pps.getLast? with
+  | some (.setMode m) => some m
+  | _ => none
 
 /-- The content after all external programs, `none` if one of them fails. -/
 def ppContent : List FilePP → Content → Option Content
   | [], c => some c
   | .setMode _ :: rest, c => ppContent rest c
-  | .edit g :: rest, c => (g c).bind (ppContent rest)
+  | .edit g :: rest, c => (g c).bind (fun r => ppContent rest r.1)
 
 /-- Nothing of the run can raise except the overwrite gate and `open`: every template renders and every
 external program succeeds on what it is given. -/
